@@ -13,6 +13,18 @@ def encodingClasses : List (String × String) := [("ByteArray", "ByteArrayEncodi
 /-- keys `StringArrayEncoding.serialize` writes / `StringArrayEncoding.deserialize` reads (it does not use the name maps). -/
 def stringArrayWritten : List String := ["kind", "dataEncoding", "stringData", "offsets", "offsetEncoding"]
 def stringArrayRead : List String := ["dataEncoding", "offsetEncoding", "offsets", "stringData"]
+/-- compress.py: `float_tolerance` parameter of every function that has one, with its default (`none` = no default). -/
+def toleranceDefaults : List (String × Option String) := [("compress", some "1e-06"), ("_compress_file", none), ("_compress_block", none), ("_compress_category", none), ("_compress_column", none), ("_compress_data", none)]
+/-- `TypeCode.from_dtype`: dtype substitutions (given, stored as). -/
+def dtypeSubstitutions : List (String × String) := [("int64", "int32"), ("uint64", "uint32"), ("float16", "float32"), ("float128", "float64")]
+/-- `IntegerPackingEncoding._determine_packed_dtype`: (byte count, unsigned dtype, signed dtype). -/
+def packedDtypes : List (Nat × String × String) := [(1, "uint8", "int8"), (2, "uint16", "int16")]
+/-- `create_uncompressed_encoding`: (numpy kind tested, encoding if it is that kind, encoding otherwise). -/
+def uncompressedDefault : String × String × String := ("str_", "StringArrayEncoding", "ByteArrayEncoding")
+/-- bcif.py: string keys used by serialize / deserialize / write of every component class. -/
+def containerKeys : List (String × List String) := [("BinaryCIFBlock.deserialize", ["categories", "name"]), ("BinaryCIFBlock.serialize", ["categories", "name"]), ("BinaryCIFCategory.deserialize", ["columns", "name", "rowCount"]), ("BinaryCIFCategory.serialize", ["columns", "name", "rowCount"]), ("BinaryCIFColumn.deserialize", ["data", "mask"]), ("BinaryCIFColumn.serialize", ["data", "mask"]), ("BinaryCIFData.deserialize", ["data", "encoding"]), ("BinaryCIFData.serialize", ["data", "encoding"]), ("BinaryCIFFile.deserialize", ["dataBlocks", "header"]), ("BinaryCIFFile.serialize", ["dataBlocks", "header"]), ("BinaryCIFFile.write", ["biotite", "encoder", "version"])]
+def blockPrefixAdded : Nat := 5
+def blockPrefixStripped : Nat := 2
 /-- `_find_best_integer_compression`: the three loop domains, the encoding classes in the order a chain is extended, and the
 `later = earlier + [encoding]` steps (regenerated from compress.py with `ast`). -/
 def deltaDomain : List Bool := [false, true]
